@@ -628,6 +628,43 @@ func (tc *treeChecker) check(n *node) {
 	case fullRefs && !bytes.Equal(cat, D):
 		tc.fail("ForeachChunk", "chunks-do-not-add-up", fmt.Sprintf("concatenated chunks %q, want %q", cat, D))
 	}
+	// The same part list written back through the schema Builder (what pk-put does when it
+	// finds a file to be a duplicate: PopulateParts(dup.PartsSize(), dup.ByteParts())) must
+	// denote the same bytes.
+	raw, _ := tc.sto.Get(n.ref)
+	sb, err := schema.BlobFromReader(n.ref, bytes.NewReader(raw))
+	if err != nil {
+		return
+	}
+	bb := schema.NewBuilder()
+	bb.SetType(schema.TypeBytes)
+	if err := bb.PopulateParts(sb.PartsSize(), sb.ByteParts()); err != nil {
+		// the Builder refuses sparse parts (size without blobRef/bytesRef) loudly: a limitation
+		// of the writing API, not a wrong read; anything else is a finding
+		if !strings.Contains(err.Error(), "must contain either a BlobRef or BytesRef") {
+			tc.fail("PopulateParts", "error", err.Error())
+		}
+		return
+	}
+	cj, err := bb.JSON()
+	if err != nil {
+		tc.fail("PopulateParts", "error", err.Error())
+		return
+	}
+	cref := blob.RefFromString(cj)
+	tc.sto.PutRaw(cref, []byte(cj))
+	defer tc.sto.Delete(cref)
+	cfr, err := schema.NewFileReader(ctxbg, tc.sto, cref)
+	tc.calls++
+	if err != nil {
+		tc.fail("PopulateParts", "copy-unreadable", err.Error())
+		return
+	}
+	defer cfr.Close()
+	all, err := io.ReadAll(cfr)
+	if err != nil || !bytes.Equal(all, D) {
+		tc.fail("PopulateParts", "copy-differs", fmt.Sprintf("the part list copied with ByteParts + PopulateParts reads %q (error %v), the original %q", all, err, D))
+	}
 }
 
 func newTreeChecker(sp *space) *treeChecker {
